@@ -100,7 +100,7 @@ def hang_signature(cmd, env, cwd, settle=25):
     they live in does not).  Two non-terminating defects reached through the same entry point but spinning in different
     modules get different signatures."""
     p = subprocess.Popen(cmd, env=env, cwd=cwd, stdout=subprocess.DEVNULL, stderr=subprocess.DEVNULL)
-    outers, votes = [], {}
+    outers, votes, votes_all = [], {}, {}
     try:
         time.sleep(settle)
         for k in range(3):
@@ -109,6 +109,9 @@ def hang_signature(cmd, env, cwd, settle=25):
             outer, inner = _sample(p.pid)
             if outer:
                 outers.append(outer)
+            for f in inner + outer:
+                m = _module(f)
+                votes_all[m] = votes_all.get(m, 0) + 1
             for f in inner:
                 m = _module(f)
                 if m in UTILITY_MODULES:
@@ -118,10 +121,12 @@ def hang_signature(cmd, env, cwd, settle=25):
     finally:
         p.kill()
         p.wait()
-    if not outers or not votes:
+    if not outers or not votes_all:
         return None, "no chialisp frames"
     entry = _short(outers[0][0])
-    home = sorted(votes.items(), key=lambda kv: (-kv[1], kv[0]))[0][0]
+    # when the innermost frames are all in helper modules, the busiest module of the sampled frames is used instead
+    pool = votes if votes else {m: n for m, n in votes_all.items() if m not in UTILITY_MODULES} or votes_all
+    home = sorted(pool.items(), key=lambda kv: (-kv[1], kv[0]))[0][0]
     return f"hang:{entry}>{home}", None
 
 
